@@ -360,7 +360,22 @@ static void hexdump (const uint8_t *p, long n) {
   for (long i = 0; i < n; i++) printf ("%02x", p[i]);
 }
 
+/* `T`: the element sizes mir.c uses (_MIR_type_size), in the order i8 u8 i16 u16 i32 u32 i64 u64 f d ld p */
+static void run_sizes (void) {
+  static const MIR_type_t ts[] = {MIR_T_I8, MIR_T_U8, MIR_T_I16, MIR_T_U16, MIR_T_I32, MIR_T_U32,
+                                  MIR_T_I64, MIR_T_U64, MIR_T_F, MIR_T_D, MIR_T_LD, MIR_T_P};
+  MIR_context_t ctx = MIR_init ();
+  printf ("sizes");
+  for (size_t i = 0; i < sizeof (ts) / sizeof (ts[0]); i++) printf (" %zu", _MIR_type_size (ctx, ts[i]));
+  printf ("\n");
+  MIR_finish (ctx);
+}
+
 static void run_case (char *line) {
+  if (line[0] == 'T') {
+    run_sizes ();
+    return;
+  }
   char *colon = strchr (line, ':');
   if (colon == NULL) {
     printf ("badcase\n");
